@@ -7,6 +7,7 @@ themselves are not computed."""
 from __future__ import annotations
 
 import ast
+import re
 import itertools
 
 from ..cfg import cfg_of
@@ -50,28 +51,93 @@ def _zero_guard(f, div: ast.BinOp):
     return False, None
 
 
+def _div_operands(text):
+    """(numerator, denominator) texts of every `(A Div B)` / FloorDiv / Mod in a value text"""
+    out = []
+    for op in (" Div ", " FloorDiv ", " Mod "):
+        start = 0
+        while True:
+            i = text.find(op, start)
+            if i < 0:
+                break
+            # left operand: back to the matching "("
+            depth, j = 0, i - 1
+            while j >= 0:
+                if text[j] == ")":
+                    depth += 1
+                elif text[j] == "(":
+                    if depth == 0:
+                        break
+                    depth -= 1
+                j -= 1
+            depth, k = 0, i + len(op)
+            while k < len(text):
+                if text[k] == "(":
+                    depth += 1
+                elif text[k] == ")":
+                    if depth == 0:
+                        break
+                    depth -= 1
+                k += 1
+            out.append((text[j + 1 : i], text[i + len(op) : k]))
+            start = i + len(op)
+    return out
+
+
+def _nonzero_on_path(den, atoms):
+    """is `den != 0` established by the atoms of the path?  (den is the denominator's value text)"""
+    d = den.strip()
+    forms = [d]
+    m = re.fullmatch(r"float\((.*)\)", d)
+    if m:
+        forms.append(m.group(1))
+    for x in list(forms):
+        m = re.fullmatch(r"len\((.*)\)", x)
+        if m:
+            forms.append("NONEMPTY:" + m.group(1))
+    for x in forms:
+        if x.startswith("NONEMPTY:"):
+            if atoms.get(x[9:]) is True:
+                return True
+            continue
+        if atoms.get(x) is True:
+            return True
+        for z in ("0", "0.0"):
+            for k in (f"{z} Eq {x}", f"{x} Eq {z}"):
+                if atoms.get(k) is False:
+                    return True
+            for k in (f"{x} Gt {z}", f"{z} Lt {x}"):
+                if atoms.get(k) is True:
+                    return True
+    return False
+
+
 @rule("C07.R1", "every division in the metrics is guarded by a zero test of its denominator that yields NaN")
 def r1(ctx):
+    """Decided on the decision tables: on every path whose result contains a division, the atoms of the path establish
+    that the denominator is non-zero; and the paths on which it is zero return float('nan')."""
+    from ..spec import tab, vt
+
     repo = ctx.repo
     n = 0
     for name in METRICS:
         f = repo.func("report", name)
-        for d in [x for x in walk_no_nested(f.node) if isinstance(x, ast.BinOp) and isinstance(x.op, (ast.Div, ast.FloorDiv, ast.Mod))]:
-            n += 1
-            ok, test = _zero_guard(f, d)
-            key = f"report:{name}:division:{u(d)[:50]}"
-            if not ok:
-                ctx.violation(key, f"`{u(d)}` is not dominated by a test that `{u(d.right)}` is non-zero: ZeroDivisionError when the table has no lines / platforms (must be NaN)", f.loc(d))
-                continue
-            # the zero branch must produce NaN
-            nan_ok = False
-            for s in walk_no_nested(f.node):
-                if isinstance(s, ast.If) and s.test is test:
-                    nan_ok = _is_nan_return(s.body) or _is_nan_return(s.orelse) or "float('nan')" in u(s.body) or "float('nan')" in u(s.orelse)
-                if isinstance(s, ast.IfExp) and s.test is test:
-                    nan_ok = "nan" in u(s.orelse)
-            ctx.check(nan_ok, key, f"the zero branch of `{u(test)}` does not yield NaN", f.loc(d))
-    ctx.floor(5)
+        dens = set()
+        nan_paths = 0
+        for p in tab(f):
+            res = vt(p.result[1]) if p.result[0] == "return" and p.result[1] is not None else ""
+            at = {vt(k): v for k, v in p.atoms.items()}
+            if res == "float('nan')":
+                nan_paths += 1
+            texts = [res] + [vt(x[1]) if isinstance(x, tuple) and len(x) == 2 and isinstance(x[0], str) else vt(x) for e in p.effects if e[0] in ("call", "store", "aug", "yield") for x in e[1:] if not isinstance(x, str) or " Div " in x]
+            for num, den in [nd for t in texts for nd in _div_operands(t)]:
+                n += 1
+                dens.add(den)
+                key = f"report:{name}:division:{den[:50]}"
+                ctx.check(_nonzero_on_path(den, at), key, f"`{num[:40]} / {den[:60]}` is returned on a path that does not establish `{den[:60]}` != 0: ZeroDivisionError when the table has no lines / platforms (must be NaN)", f.loc())
+        if dens and name != "summary":
+            ctx.check(nan_paths >= 1, f"report:{name}:nan-when-undefined", "a metric with a division must return NaN where it is undefined", f.loc())
+    ctx.floor(3)
 
 
 # ----------------------------------------------------------------------
